@@ -64,14 +64,18 @@ pub fn judge(dir: &Path, sc: &Scenario, obs: &mut Obs) -> Judge {
 
 pub fn run(ctx: &Ctx) {
     sim::init();
-    ctx.set_rule("the real Worker::send_file under a simulated socket: blksize 8..65464 x windowsize 1..65535 x file sizes around block/window boundaries x with/without OACK handshake; peer = conformant model client behind a fault network (<=8 drop/dup/swap/late fates over the first 40 datagrams of either direction) and/or an adversarial script (<=30 events: full/partial/duplicate/stale/future/raw ACKs, delays, lost ACKs, ERROR, garbage, OACK, stray DATA), then honest completion or silence. Oracle: every emitted DATA carries exactly its slice of the file (S1), no block beyond the final one (S2), a transfer that ends with everything acknowledged has sent its short final block (S11), the model client's reassembled copy is byte-identical or incomplete. Non-trivial = >=2 blocks and (a fault hit, a scripted event was used, or non-default blksize/windowsize); distinct = distinct (scenario, trace shape).");
+    ctx.set_rule("the real Worker::send_file under a simulated socket: blksize 8..65464 x windowsize 1..65535 x file sizes around block/window boundaries x with/without OACK handshake; peer = conformant model client behind a fault network (<=8 drop/dup/swap/late fates over the first 40 datagrams of either direction) and/or an adversarial script (<=30 events: full/partial/duplicate/stale/future/raw ACKs, delays, lost ACKs, ERROR, garbage, OACK, stray DATA), then honest completion or silence. Oracle: every emitted DATA carries exactly its slice of the file (S1), no block beyond the final one (S2), a transfer that ends with everything acknowledged has sent its short final block (S11), the model client's reassembled copy is byte-identical or incomplete. A wire part downloads from the real tftpd (both port modes, blksize 8..16384, windowsize 1..6) with a model client that sends partial and duplicate ACKs and checks every received DATA against the file slice of its number. Non-trivial = >=2 blocks and (a fault hit, a scripted event was used, or non-default blksize/windowsize); distinct = distinct (scenario, trace shape).");
     ctx.assume("lying acknowledgements are only generated for transfers without block-number wrap-around (16-bit aliasing is undecidable for any implementation)");
     ctx.assume("the virtual clock hook (cfg rs_tftpd_verif) replaces Instant inside send_file only");
     let dirs = DirPool::new(ctx, "c01");
-    explore(ctx, "random", ctx.tier.pick(60_000, 1_500_000), strategy, |c: &Scenario, o| dirs.with(|d| judge(d, c, o)));
+    explore(ctx, "random", ctx.tier.pick(200_000, 4_000_000), strategy, |c: &Scenario, o| dirs.with(|d| judge(d, c, o)));
+    super::c0xw::run_wire(ctx, false);
 }
 
 pub fn replay(ctx: &Ctx, part: &str, case: &Value) -> bool {
+    if part.starts_with("wire-") {
+        return super::c0xw::replay(ctx, part, case);
+    }
     sim::init();
     let dirs = DirPool::new(ctx, "c01");
     replay_one(ctx, part, case, |c: &Scenario, o| dirs.with(|d| judge(d, c, o)))
